@@ -121,6 +121,14 @@ def run(c):
     for i in range(nmut):
         g = SchemaGen(rng.fork(), size=rng.range(1, 5), tl2=False)
         cases.append(("m%d" % i, rng.below(NOPT), mutate(g.text(), rng), "mutated"))
+    # boundary probes: numeric limits of the schema language (field-mask bit numbers, constant sizes); each must be accepted and
+    # compile, or be rejected with a message — never panic
+    B = "int#a8509bda ? = Int;\nstring#b5286e24 ? = String;\ntuple#9770768a {t:Type} {n:#} [t] = Tuple t n;\n"
+    for bit in (0, 30, 31, 32, 33, 63, 64, 255, 256, 4294967295, 4294967296):
+        cases.append(("bb%d" % len(cases), 0, B + "bb.opts flags:# a:flags.0?int b:flags.%d?string c:int = bb.Opts;\n" % bit, "boundary"))
+        cases.append(("bb%d" % len(cases), 0, B + "bb.inner {m:#} a:m.%d?int = bb.Inner m;\nbb.outer f:# x:(bb.inner f) = bb.Outer;\n" % bit, "boundary"))
+    for n in (0, 1, 2, 255, 65536, 4294967295, 4294967296):
+        cases.append(("bb%d" % len(cases), 0, B + "bb.tup a:(tuple int %d) = bb.Tup;\n" % n if n < 1000 else B + "bb.tup n:# a:(tuple int n) b:(tuple (tuple int %d) 0) = bb.Tup;\n" % n, "boundary"))
     # L8 (kernel ignores its cycle finder): accepted, must still build
     cases.append(("l8", 0, "loopA x:loopA = LoopA;\n", "lead-L8"))
     lines = ["tool.gen %s %d %s" % (cid, opt, hxt(text)) for cid, opt, text, _ in cases]
